@@ -150,6 +150,7 @@ fn main() {
         "ws-codec" => ws_codec::run(&args),
         "fuzz-misc" => fuzz_misc::run(&args),
         "udp-sys" => udp_sys::run(&args),
+        "udp-quiet" => udp_sys::run_quiet(&args),
         "http-sys" => http_sys::run(&args),
         "ws-sys" => ws_sys::run(&args),
         "watchdog" => watchdog::run(&args),
